@@ -196,3 +196,27 @@ Theorem C10_channel_written_edited_then_read : forall (u : list N -> bool),
 Proof. exact channel_written_edited_then_read. Qed.
 
 Print Assumptions C10_channel_written_edited_then_read.
+
+(* C02 + C10: the edited file still passes the strict stream validator (Spec.spec_stream), with the blocks that spell the samples written *)
+Theorem C10_written_then_edited_valid : forall (u : list N -> bool),
+  (forall s, Forall (fun b => b < 128) s -> u s = true) ->
+  forall o L md5, (forall l, length (md5 l) = 16%nat) -> (forall l, Forall (fun b => b < 256) (md5 l)) ->
+  forall p rate bps ch, rate < 2 ^ 20 -> 1 <= bps -> bps <= 32 -> 1 <= ch -> ch <= 8 ->
+  forall wo total w chunks,
+  options_wf wo -> Forall plain (o_metadata wo) -> seektables (o_metadata wo) = 0%nat ->
+  sample_new p [] wo rate bps ch total = Ok w ->
+  forallb (FlacCodec.Wf.fits bps) (concat chunks) = true ->
+  let W := N.of_nat (length (concat chunks)) / ch in
+  1 <= W -> N.of_nat (length (concat chunks)) < 2 ^ 36 ->
+  match total with Some T => T = ch * W | None => True end ->
+  exists f blocks,
+    sample_run (FlacE2E.E2E.encB o L rate bps) md5 p w chunks = Ok f /\
+    concat (map FlacCodec.Stream.interleave_frame blocks) =
+      firstn (N.to_nat ch * (length (concat chunks) / N.to_nat ch)) (concat chunks) /\
+    forall edits fn rs,
+      Forall (typed_edit u) edits -> Forall (U.keeps_streaminfo FlacMeta.Blocks.block) edits ->
+      U.run_edits FlacMeta.Blocks.block psize_r ser_r uclass_r (read_blocks_r u) edits (f_stream f) = (fn, rs) ->
+      FlacCodec.Spec.spec_stream fn = Ok (FlacE2E.Bridge.conv_si (f_si f), blocks).
+Proof. exact written_then_edited_valid. Qed.
+
+Print Assumptions C10_written_then_edited_valid.
